@@ -3,7 +3,8 @@
 (*  t = "parse":    parser verdict + projection of the parsed struct  -> Valid!IsValidBundle (C02) *)
 (*  t = "produced": bundle returned by a producer of the code base    -> valid and re-parsable (C02) *)
 (*  t = "ser":      real serialisation of a fully CRC-protected bundle -> every CRC correct (C03)   *)
-(*  t = "mut":      corrupted encoding the parser ACCEPTED             -> no declared CRC wrong (C03) *)
+(*  t = "mut":      corrupted encoding the parser ACCEPTED             -> no declared CRC wrong; no   *)
+(*                  single-bit change, no burst inside unchanged block boundaries (C03)            *)
 EXTENDS Valid
 
 CONSTANT RecFile
@@ -19,7 +20,13 @@ Problems(r) ==
                          \cup (IF Len(v) >= 1 /\ v[1] = "nocrc" THEN {"primary-block-without-crc"} ELSE {})
                          \cup (IF \E i \in 1..Len(v) : v[i] \in {"bad", "malformed"} THEN {"serialiser-wrote-wrong-crc"} ELSE {})
     [] r.t = "mut" -> LET v == BundleCrcVerdicts(r.bytes)
-                      IN IF \E i \in 1..Len(v) : v[i] = "bad" THEN {"accepted-despite-crc-mismatch"} ELSE {}
+                          d == Delimit(r.bytes)
+                      IN (IF \E i \in 1..Len(v) : v[i] = "bad" THEN {"accepted-despite-crc-mismatch"} ELSE {})
+                         \* the consequence the property spells out: in a fully protected bundle no single-bit change is accepted,
+                         \* and no burst up to the CRC width that leaves the block boundaries where they were
+                         \cup (IF r.kind = "bit" THEN {"accepted-single-bit-change"} ELSE {})
+                         \cup (IF r.kind = "burst" /\ Len(d) = Len(r.starts) /\ \A i \in 1..Len(d) : d[i][1] = r.starts[i]
+                               THEN {"accepted-burst-with-boundaries-intact"} ELSE {})
 
 Unjudged(r) == r.t = "mut" /\ Delimit(r.bytes) = <<>>
 
